@@ -28,7 +28,7 @@ CLAIMS = {
                 tech='Kani proof harnesses over full-domain symbolic f64',
                 ref='DESIGN.md §5 C12'),
     'C13': dict(cat='proof',
-                text='OrderMap::get/len/is_empty/new/get_item/set_item are verified by Verus for maps of ANY size and any key type whose == has a spec: get returns the value of the first entry whose key is == to the argument, None exactly when no key is == (unbounded, on text extracted from /repo each run). insert/get_mut/remove/contains_key and the order-insensitive == are checked by Kani against an association-list view keyed by a non-trivial == for maps of at most 3 entries (bounded), and at the css::Value instantiation (1in / 96px are the same key; a null value is present). The duplicate-key check of map literals is checked on the range extracted from the evaluator (bounded: two-entry literals).',
+                text='OrderMap::get/len/is_empty/new/singleton/get_item/set_item are verified by Verus for maps of ANY size and any key type whose == has a spec: get returns the value of the first entry whose key is == to the argument, None exactly when no key is == (unbounded, on text extracted from /repo each run). insert/get_mut/remove/contains_key and the order-insensitive == are checked by Kani against an association-list view keyed by a non-trivial == for maps of at most 3 entries (bounded), and at the css::Value instantiation (1in / 96px are the same key; a null value is present). The duplicate-key check of map literals is checked on the range extracted from the evaluator (bounded: two-entry literals).',
                 note='find_value and the closures of map.get / map.has-key (extracted unchanged, value type instantiated at atoms + nested maps behind references) are checked for one-key lookups on one concrete map, including a key whose value is null (bounded); lookups whose further keys come as a rest-argument list exceed 11 minutes (thorough-tier attempts). map.merge/set/remove/deep-merge/keys/values are not covered (do_merge: attempt only). Bounded stand-ins are listed in evidence and not counted as proved.',
                 tech='Verus on extracted OrderMap read side + Kani bounded proof harnesses + K-snippet of the map-literal arm',
                 ref='DESIGN.md §5 C13, §11'),
